@@ -49,6 +49,10 @@ func (e *ssaEval) loadArray(ld *ssa.UnOp, a sv) (sv, bool) {
 	for i := range el {
 		v, ok := e.mem[fmt.Sprintf("%s[%d]", a.s, i)]
 		if !ok {
+			// an element that is a struct whose fields were stored one by one (ext_w2.go)
+			v, ok = e.structValueW2(fmt.Sprintf("%s[%d]", a.s, i), at.Elem())
+		}
+		if !ok {
 			return sv{}, false
 		}
 		el[i] = v
